@@ -230,6 +230,7 @@ class C19(Check):
         return None
 
     # --------------------------------------------------------------------------------------------
+    @hist.retry_environmental
     def run_case(self, case, ctx):
         w = os.path.join(ctx.dir, "w")
         os.makedirs(w)
